@@ -15,7 +15,10 @@ CONSTANTS
   FocusNames <- NamesFocus
   FocusPre <- PreFocus
   FocusItems <- ItemsFocus
-  FocusMax = 6
+  FocusMax = 5
+  FocusDeepNames <- NamesFocusRetry
+  FocusDeepMax = 6
+  FocusDeepItems <- ItemsFocusDeep
   FixO1 = TRUE
   FixRetry = TRUE
   FixRetryList = TRUE
